@@ -73,6 +73,8 @@ TRANSLATORS = {
     "PoolGen.v": ("tr/pool.py", ["varlink/src/server.rs"]),
     "GrammarGen.v": ("tr/grammar.py", ["varlink_parser/src/varlink_grammar.rs", "varlink_parser/src/lib.rs"]),
     "AddrGen.v": ("tr/addr.py", ["varlink/src/client.rs", "varlink/src/server.rs"]),
+    "CertGen.v": ("tr/cert.py", ["varlink-certification/src/main.rs"]),
+    "ProxyGen.v": ("tr/proxy.py", ["varlink-cli/src/proxy.rs"]),
 }
 
 
